@@ -32,24 +32,22 @@ type silentRef struct {
 	Sites map[string]int `json:"sites"`
 }
 
-var silentGroups = []struct {
-	rule  string
-	props []string
-	pkgs  []string
-}{
-	{"R01.15", []string{"C01", "C02", "C03", "C04", "C05", "C07", "C08", "C10"}, []string{"pkg/blobstore/local"}},
-	{"R09.10", []string{"C09", "C15", "C16"}, []string{"pkg/blobstore/buffer"}},
-	{"R11.10", []string{"C11", "C12", "C13", "C17"}, []string{"pkg/blobstore/mirrored", "pkg/blobstore/sharding", "pkg/blobstore/completenesschecking", "pkg/blobstore/replication", "pkg/blobstore/readcaching", "pkg/blobstore/readfallback"}},
-	{"R14.10", []string{"C14"}, []string{"pkg/blobstore/grpcservers", "pkg/blobstore/grpcclients"}},
-	{"R18.10", []string{"C18", "C19", "C17", "C20"}, []string{"pkg/blobstore", "pkg/auth", "pkg/digest", "pkg/util"}},
-}
+var silentGroups = groupsOf([][]string{
+	{"R01.15", "local"},
+	{"R09.10", "buffer"},
+	{"R11.10", "mirrored", "sharding", "completeness", "replication"},
+	{"R14.10", "grpc"},
+	{"R18.10", "top"},
+	{"R20.15", "digest"},
+	{"R02.14", "config"},
+})
 
 func init() {
 	for i := range silentGroups {
 		g := silentGroups[i]
 		register(&Rule{
 			ID: g.rule, Props: g.props, Engine: "failure-path automaton with a reference count of tolerated sites (SSA)",
-			Text: "no new silent failure path (" + strings.Join(g.pkgs, ", ") + "): on every path on which the error of a call was found non-nil, that error is returned, wrapped, handed to some callee, stored, or compared with a specific error value before the function returns or makes the call again; the number of paths per (function, callee) on which a failure is simply dropped does not exceed what the reference tree has (its retry loops and best-effort clean-ups)",
+			Text:  "no new silent failure path (" + strings.Join(g.pkgs, ", ") + "): on every path on which the error of a call was found non-nil, that error is returned, wrapped, handed to some callee, stored, or compared with a specific error value before the function returns or makes the call again; the number of paths per (function, callee) on which a failure is simply dropped does not exceed what the reference tree has (its retry loops and best-effort clean-ups)",
 			Floor: 1, MustExist: false, Run: func(c *Ctx) { runSilentFail(c, g.pkgs) },
 		})
 	}
